@@ -122,9 +122,9 @@ fn enumerate(tier: &str, seed: u64) -> Vec<P> {
     let th = tier == "thorough";
     let s1 = if th { seed + 41 } else { 41 };
     l1.sort_by_key(|p| hash_str(&show(p), s1));
-    l1.truncate(if th { 1200 } else { 90 });
+    l1.truncate(if th { 1200 } else { 55 });
     l2.sort_by_key(|p| hash_str(&show(p), s1 + 1));
-    l2.truncate(if th { 1500 } else { 100 });
+    l2.truncate(if th { 1500 } else { 60 });
     out.extend(l1);
     out.extend(l2);
     out
